@@ -43,14 +43,35 @@ structure Config where
   targetScalar : Bool := true
   sanity : Bool := true
   typesOk : Bool := true            -- every isinstance check of the sanity loop passes
-  controllerNone : Bool := false     -- sampling_iteration_controller is None …
-  nSamples : Nat := 1                -- … which is only allowed for n_samples == 0
-  fresh0 : Bool := true              -- fresh_stochasticity(0)
+  ctrlNoneAt : List Bool := []       -- per global iteration: sampling_iteration_controller(i) is None (default false) …
+  nSamplesAt : List Nat := []        -- … which is only allowed where n_samples(i) == 0 (default 1); constants = constant lists
+  freshAt : List Bool := []          -- fresh_stochasticity(i) per global iteration (default true)
+  hasTransitions : Bool := false     -- a `transitions` callable was given
+  hasInspect : Bool := false         -- an `inspect_callback` was given
+  hasTerminate : Bool := false       -- a `terminate_callback` was given
   dryRun : Bool := false
   terminateAt : Option Nat := none   -- first global iteration at which terminate_callback returns True
   returnFinal : Bool := false
   prevOutDir : Bool := false         -- an earlier call in this process had an output directory
   deriving Repr
+
+/-- fresh_stochasticity(i) -/
+def Config.fresh (c : Config) (i : Nat) : Bool := (c.freshAt[i]?).getD true
+
+/-- n_samples(i) and "controller(i) is None" -/
+def Config.nAt (c : Config) (i : Nat) : Nat := (c.nSamplesAt[i]?).getD 1
+def Config.ctrlNone (c : Config) (i : Nat) : Bool := (c.ctrlNoneAt[i]?).getD false
+
+/-- the sanity loop's `myassert(n_samples(i) == 0)` fails for some iteration of this call -/
+def Config.ctrlBad (c : Config) : Bool :=
+  (List.range (c.total - c.initialIndex)).any (fun k => c.ctrlNone (c.initialIndex + k) && c.nAt (c.initialIndex + k) != 0)
+
+/-- number of samples in the list returned after `its` minimised iterations: that of the last one carried out
+    (MAP iteration: 1; VI iteration: 2 n mirrored samples; nothing carried out: the single initial sample) -/
+def Config.nResult (c : Config) (its : Nat) : Nat :=
+  if its = 0 then 1 else
+    let last := c.initialIndex + its - 1
+    if c.nAt last = 0 then 1 else 2 * c.nAt last
 
 /-- which version of the code -/
 inductive Version where
@@ -64,6 +85,10 @@ structure Shape where
   arity : Nat               -- 2 with return_final_position, else 1
   writesFiles : Bool        -- files are written (into the current or — as found — a stale output directory)
   stackDelta : Int          -- depth of nifty.cl.random's stack after minus before
+  seedsRepeat : List Bool   -- per pushed iteration after the first: does it use the SAME seeds as the iteration before?
+  transitionCalls : List Nat  -- global iterations `transitions` was called with, in order
+  inspectCalls : List Nat     -- … `inspect_callback` (its second argument, or the iteration it was called in)
+  terminateCalls : List Nat   -- … `terminate_callback`
   deriving DecidableEq, Repr
 
 /-- the documented constraints, over the Boolean facts about a configuration -/
@@ -98,12 +123,49 @@ def isOk {α : Type} : Except ErrKind α → Bool
 def valid (c : Config) : Bool :=
   validB c.exportIsDict c.exportHasPickle c.initialIndexIsInt c.strategyValid c.outDir c.resume
     (decide (c.initialIndex < c.total)) (c.transitionsArity == 1) (c.inspectArity == 1 || c.inspectArity == 2)
-    (c.terminateArity == 1) c.targetScalar c.sanity c.typesOk (c.controllerNone && c.nSamples != 0) c.fresh0
+    (c.terminateArity == 1) c.targetScalar c.sanity c.typesOk c.ctrlBad (c.fresh 0)
 
 def precheck (v : Version) (c : Config) : Except ErrKind Unit :=
   precheckB v c.exportIsDict c.exportHasPickle c.initialIndexIsInt c.strategyValid c.outDir c.resume
     (decide (c.initialIndex < c.total)) (c.transitionsArity == 1) (c.inspectArity == 1 || c.inspectArity == 2)
-    (c.terminateArity == 1) c.targetScalar c.sanity c.typesOk (c.controllerNone && c.nSamples != 0) c.fresh0
+    (c.terminateArity == 1) c.targetScalar c.sanity c.typesOk c.ctrlBad (c.fresh 0)
+
+/-! ### seed-sequence bookkeeping
+    `sseqs = spawn_sseq(total)` gives `total` distinct sequences (numbered 0 … total-1, spawn counter 0); then, in order of i,
+    `if not fresh_stochasticity(i): sseqs[i] = <duplicate of sseqs[i-1]>`.  An iteration pushes its sequence and the sampling
+    spawns `spawns i` children from it (the sequence's spawn counter advances).  What an iteration draws is determined by
+    (number of the sequence, spawn counter at push). -/
+
+inductive SeqImpl where
+  | duplicate      -- the code: a NEW SeedSequence with the same entropy/spawn_key (counter 0)
+  | shared         -- a wrong variant: the previous iteration's OBJECT is reused (its counter has advanced)
+  deriving DecidableEq, Repr
+
+/-- number of the spawned sequence iteration `i` uses -/
+def keyOf (fresh : Nat → Bool) : Nat → Nat
+  | 0 => 0
+  | i + 1 => if fresh (i + 1) then i + 1 else keyOf fresh i
+
+/-- spawn counter of iteration `i`'s sequence object at the moment it is pushed -/
+def ctrAtPush (impl : SeqImpl) (fresh : Nat → Bool) (spawns : Nat → Nat) : Nat → Nat
+  | 0 => 0
+  | i + 1 =>
+    match impl with
+    | .duplicate => 0
+    | .shared => if fresh (i + 1) then 0 else ctrAtPush impl fresh spawns i + spawns i
+
+/-- the seeds of iteration `i` -/
+def seedsOf (impl : SeqImpl) (fresh : Nat → Bool) (spawns : Nat → Nat) (i : Nat) : Nat × Nat :=
+  (keyOf fresh i, ctrAtPush impl fresh spawns i)
+
+/-- number of children the sampling of iteration `i` spawns: one per sample pair (none for MAP / dry runs) -/
+def Config.spawns (c : Config) (i : Nat) : Nat := if c.dryRun then 0 else c.nAt i
+
+/-- for the pushed iterations j+1 … j+len: same seeds as the iteration before? -/
+def seedsRepeatFrom (impl : SeqImpl) (c : Config) (j : Nat) : Nat → List Bool
+  | 0 => []
+  | len + 1 => decide (seedsOf impl c.fresh c.spawns (j + 1) = seedsOf impl c.fresh c.spawns j) ::
+      seedsRepeatFrom impl c (j + 1) len
 
 /-- the loop `for iglobal in range(j, total)` as far as push/pop and early exits are concerned:
     returns (iterations minimised, stack depth change). `fuel = total - j`. -/
@@ -122,16 +184,29 @@ def loopEffect (v : Version) (c : Config) : Nat → Nat → Nat × Int
       let r := loopEffect v c fuel (j + 1)
       (r.1 + 1, r.2)
 
+/-- number of iterations that push their seed sequence (dry-run iterations push too; a terminated run stops pushing) -/
+def Config.pushed (c : Config) : Nat :=
+  if c.dryRun then c.total - c.initialIndex else
+    match c.terminateAt with
+    | some t => if c.initialIndex ≤ t ∧ t < c.total then t - c.initialIndex + 1 else c.total - c.initialIndex
+    | none => c.total - c.initialIndex
+
+def iterList (j n : Nat) : List Nat := (List.range n).map (· + j)
+
 def expectedShape (c : Config) : Shape :=
   let its := if c.dryRun then 0 else
     match c.terminateAt with
     | some t => if c.initialIndex ≤ t ∧ t < c.total then t - c.initialIndex + 1 else c.total - c.initialIndex
     | none => c.total - c.initialIndex
   { iterations := its
-    nResult := if its = 0 then 1 else if c.nSamples = 0 then 1 else 2 * c.nSamples
+    nResult := c.nResult its
     arity := if c.returnFinal then 2 else 1
     writesFiles := c.outDir && its != 0
-    stackDelta := 0 }
+    stackDelta := 0
+    seedsRepeat := (iterList (c.initialIndex + 1) (c.pushed - 1)).map (fun i => !c.fresh i)
+    transitionCalls := if c.hasTransitions then iterList c.initialIndex c.pushed else []
+    inspectCalls := if c.hasInspect then iterList c.initialIndex its else []
+    terminateCalls := if c.hasTerminate then iterList c.initialIndex its else [] }
 
 /-- one call of the driver (not resuming from files): error kind or shape -/
 def accepts (v : Version) (c : Config) : Except ErrKind Shape :=
@@ -140,9 +215,13 @@ def accepts (v : Version) (c : Config) : Except ErrKind Shape :=
   | .ok _ =>
     let r := loopEffect v c (c.total - c.initialIndex) c.initialIndex
     .ok { iterations := r.1
-          nResult := if r.1 = 0 then 1 else if c.nSamples = 0 then 1 else 2 * c.nSamples
+          nResult := c.nResult r.1
           arity := if c.returnFinal then 2 else 1
           writesFiles := (c.outDir || (v == .asFound && c.prevOutDir)) && r.1 != 0
-          stackDelta := r.2 }
+          stackDelta := r.2
+          seedsRepeat := seedsRepeatFrom .duplicate c c.initialIndex (c.pushed - 1)
+          transitionCalls := if c.hasTransitions then iterList c.initialIndex c.pushed else []
+          inspectCalls := if c.hasInspect then iterList c.initialIndex r.1 else []
+          terminateCalls := if c.hasTerminate then iterList c.initialIndex r.1 else [] }
 
 end NiftyVerif.DriverCfg
